@@ -135,6 +135,11 @@ LawSumBoundary == c.k = "sumb" =>
    /\ CheckSum8(c.x \o <<CheckSum8(c.x)>>) = 0
    /\ LET e == c.x \o (IF Len(c.x) % 2 = 1 THEN <<0>> ELSE <<>>)  s == CheckSum16(c.x) IN
         CheckSum16(e) = s /\ CheckSum16(e \o <<s \div 256, s % 256>>) = 0
+\* as-found shape of a seeded defect: carries folded back once only.  NOT a law - the configuration MC_Laws_singlefold.cfg
+\* expects TLC to refute it on the boundary domain (which shows that the domain reaches the second carry)
+SingleFoldSuffices == c.k = "sumb" =>
+   /\ CheckSum16(c.x) = 65535 - (FoldOnce(WordSumFrom(c.x, 1), 65536) % 65536)
+   /\ CheckSum8(c.x) = 255 - (FoldOnce(SumFrom(c.x, 1), 256) % 256)
 CheckValues ==
    /\ Crc16(Check9) = 10673                                                          \* 0x29b1
    /\ Crc32(Check9) = <<52212, 14630>>                                               \* 0xcbf43926
@@ -145,6 +150,8 @@ CheckValues ==
    /\ CheckSum16(<<255, 255, 255, 255, 0, 1>>) = 65534                                \* ffff+ffff+0001: the fold carries twice
    /\ CheckSum16(<<192, 0, 192, 0, 127, 255>>) = 65534 /\ CheckSum8(<<255, 255, 1>>) = 254
    /\ AtFoldBoundary16(<<255, 255, 255, 255, 0, 1>>) /\ AtFoldBoundary8(<<255, 255, 1>>)
+   /\ \E x \in SumInputs16 : FoldOnce(WordSumFrom(x, 1), 65536) >= 65536               \* the boundary domains reach the second carry
+   /\ \E x \in SumInputs8 : FoldOnce(SumFrom(x, 1), 256) >= 256
 LawCheckValues == c.k = "sum" /\ c.x = <<>> => CheckValues
 LawMd5 == c.k = "md5" => Md5(Md5Suite[c.x][1]) = Md5Suite[c.x][2]
 LawAes == c.k = "aes" => LET t == AesSuite[c.x] IN
